@@ -84,6 +84,7 @@ class Profile:
     typedef_weight: int = 1
     identity_methods: bool = False
     reopen_ns: bool = False           # the same namespace opened twice in one scope
+    colliding_member_insts: bool = False  # member-template lists like {gtsam::P, sensor::P}
     defaults: bool = True
     typedef_needs_target: bool = False
     template_modes: Tuple[str, ...] = ('all', 'all', 'all', 'none', 'mixed')
@@ -413,7 +414,7 @@ def _iname(t: M.Type) -> str:
 
 
 @st.composite
-def templates(draw, ctx: Ctx, used=(), force_lists=None, max_params=None):
+def templates(draw, ctx: Ctx, used=(), force_lists=None, max_params=None, member_level=False):
     prof = ctx.prof
     n = draw(st.integers(1, prof.max_tparams if max_params is None else max_params))
     names = []
@@ -453,8 +454,15 @@ def templates(draw, ctx: Ctx, used=(), force_lists=None, max_params=None):
                                templated=True, top_qualifiers=False))
                 # an instantiation list names each type once, and the generated names
                 # (NameArg..., namespaces do not take part) must differ
-                if x not in lst and _iname(x) not in [_iname(y) for y in lst]:
+                if x not in lst and (member_level and prof.colliding_member_insts or
+                                     _iname(x) not in [_iname(y) for y in lst]):
                     lst.append(x)
+                    if member_level and prof.colliding_member_insts and x.ns and \
+                            len(lst) < k and draw(st.integers(0, 2)) == 0:
+                        # the same name from another namespace: a second overload of one name
+                        twin = replace(x, ns=('sensor',) if x.ns != ('sensor',) else ('gtsam',))
+                        if twin not in lst:
+                            lst.append(twin)
             insts = tuple(lst)
         params.append(M.TParam(nm, insts))
     return M.Template(tuple(params))
@@ -631,7 +639,8 @@ def classes(draw, ctx: Ctx, path: Tuple[str, ...]):
         if k == 'ctor':
             mt = None
             if prof.templates and draw(st.integers(0, prof.member_template_odds)) == 0:
-                mt = draw(templates(ctx, used=set(ctp) | {name}, force_lists=True, max_params=2))
+                mt = draw(templates(ctx, used=set(ctp) | {name}, force_lists=True, max_params=2,
+                                    member_level=True))
                 ctx.scoped_ok |= {p.name for p in mt.params if not any(i.targs for i in p.insts)}
             tps = ctp + (tuple(mt.names()) if mt else ())
             cargs = draw(arg_lists(ctx, tps, this=True))
@@ -646,7 +655,8 @@ def classes(draw, ctx: Ctx, path: Tuple[str, ...]):
         elif k in ('method', 'static'):
             mt = None
             if prof.templates and draw(st.integers(0, prof.member_template_odds)) == 0:
-                mt = draw(templates(ctx, used=set(ctp) | {name}, force_lists=True, max_params=2))
+                mt = draw(templates(ctx, used=set(ctp) | {name}, force_lists=True, max_params=2,
+                                    member_level=True))
                 ctx.scoped_ok |= {p.name for p in mt.params if not any(i.targs for i in p.insts)}
             tps = ctp + (tuple(mt.names()) if mt else ())
             same_kind = sorted({x.name for x in members
